@@ -193,21 +193,7 @@ def averages(check, proj):
                 check.undecided("MESH-AVG", f.qualname, "%s of a zero array: %s" % (name, e), f.loc())
 
 
-class Family:
-    """index table  a*k + b , k in [0, count)"""
-    def __init__(self, alg, count, a, b):
-        self.alg, self.count, self.a, self.b = alg, count, a, b
-
-    def _fd_binop(self, op, other, reflected, interp):
-        A = self.alg
-        o = interp.lift(other)
-        if isinstance(op, ast.Add):
-            return Family(A, self.count, self.a, self.b + o)
-        if isinstance(op, ast.Sub) and not reflected:
-            return Family(A, self.count, self.a, self.b - o)
-        if isinstance(op, ast.Mult):
-            return Family(A, self.count, self.a * o, self.b * o)
-        raise AnalysisError("unsupported arithmetic on an index table")
+from ..stencil2d import Family         # index table a*k + b, k in [0, count)
 
 
 def mesh_2d(check, proj):
